@@ -217,53 +217,164 @@ CODEC_BATCH = 250
 LICENSE_BATCH = 100
 LIST_BATCH = 16
 
-# minimum-reach floors, ~50% of what a run on the current tree measures (quick: seed 0 measured; thorough: scaled
-# by the workload ratio and checked against a measured thorough run).  The M.perm* / perm:* / lic:common-indent* /
-# feat:common-indent / M.license-enc floors (min over quick seeds 0-3, thorough seed 0, halved) make a run that never
-# reaches the parsed-permutation or common-indentation classes INCONCLUSIVE.
+# minimum-reach floors: 50% (rounded down to two digits) of the minimum measured on the unchanged tree - quick: min over
+# VERIF_SEED 0-3, thorough: seed 0 - regenerated after the round-5 extension for EVERY counter and monitor.  The
+# lists:* / feat:punct-* / fact:* / multi:* counters and M.list* / M.watch / M.multi* / M.nonstrict* monitors make a
+# run that never reaches the punctuated-list or the factory / shared-state classes INCONCLUSIVE; the perm:* /
+# lic:common-indent* / M.perm* / M.license-enc floors do the same for the round-3 classes.  The two complete
+# sub-spaces (codec:enumerated, lists:enumerated) are floored at their exact size.  No floor on the four
+# feat:punct-*-lone-comma/-semicolon document counters (a few dozen per quick run; the lists:*:lone-* counters carry it).
 FLOORS = {
-    'quick': {'nontrivial': 45000,
-              'monitors': {'M.doc': 5000, 'M.para': 20000, 'M.value': 90000, 'M.codec': 65000, 'M.codec-str': 49000,
-                           'M.license': 15000, 'K.codec': 170000, 'M.license-enc': 15000, 'M.perm': 3200,
-                           'M.perm-para': 15500, 'M.perm-value': 69000, 'M.perm-fixpoint': 3200},
-              'counters': {'feat:empty-line': 4400, 'feat:indent': 4500, 'feat:tab': 3800, 'feat:non-ascii': 4800,
-                           'feat:trailing-blank': 4500, 'feat:files-list>80': 2900, 'feat:files-list>120': 1700,
-                           'feat:pattern>80': 1500, 'feat:pattern-hyphen': 3800, 'feat:files-single': 1700,
-                           'feat:files-multi': 3800, 'feat:contact-single': 950, 'feat:contact-multi': 1400,
-                           'feat:files-paragraph': 4200, 'feat:license-paragraph': 3300, 'feat:header-license': 990,
-                           'feat:set-then-clear': 1200, 'feat:reassigned': 3700, 'feat:files-added-after-license': 2100,
-                           'input:keepends': 1200, 'input:noends': 1200, 'input:stringio': 1200, 'input:bytes': 1200,
-                           'codec:enumerated': 16105,
-                           'feat:common-indent': 1750, 'lic:common-indent': 2000, 'lic:common-indent-space': 1000,
-                           'lic:common-indent-tab': 360, 'lic:common-indent-mixed': 590,
-                           'lic:common-indent-with-empty-line': 660,
-                           'perm:license-before-first-files': 1250, 'perm:license-between-files': 1000,
-                           'perm:files-after-license': 2050, 'perm:all-licenses-before-all-files': 700,
-                           'perm:files-reordered-among-themselves': 1950,
-                           'perm:licenses-reordered-among-themselves': 1050,
-                           'perm-input:keepends': 800, 'perm-input:noends': 800, 'perm-input:stringio': 800,
-                           'perm-input:bytes': 800}},
-    'thorough': {'nontrivial': 2000000,
-                 'monitors': {'M.doc': 280000, 'M.para': 1100000, 'M.value': 5000000, 'M.codec': 3500000, 'M.codec-str': 2600000,
-                              'M.license': 700000, 'K.codec': 9000000, 'M.license-enc': 700000, 'M.perm': 184000,
-                              'M.perm-para': 889000, 'M.perm-value': 3900000, 'M.perm-fixpoint': 184000},
-                 'counters': {'feat:empty-line': 198000, 'feat:indent': 202500, 'feat:tab': 171000, 'feat:non-ascii': 216000,
-                              'feat:trailing-blank': 202500, 'feat:files-list>80': 130500, 'feat:files-list>120': 76500,
-                              'feat:pattern>80': 67500, 'feat:pattern-hyphen': 171000, 'feat:files-single': 76500,
-                              'feat:files-multi': 171000, 'feat:contact-single': 42750, 'feat:contact-multi': 63000,
-                              'feat:files-paragraph': 189000, 'feat:license-paragraph': 148500, 'feat:header-license': 44550,
-                              'feat:set-then-clear': 54000, 'feat:reassigned': 166500, 'feat:files-added-after-license': 94500,
-                              'input:keepends': 54000, 'input:noends': 54000, 'input:stringio': 54000, 'input:bytes': 54000,
-                              'codec:enumerated': 16105,
-                              'feat:common-indent': 99000, 'lic:common-indent': 94000, 'lic:common-indent-space': 48000,
-                              'lic:common-indent-tab': 17000, 'lic:common-indent-mixed': 28000,
-                              'lic:common-indent-with-empty-line': 32000,
-                              'perm:license-before-first-files': 72000, 'perm:license-between-files': 59000,
-                              'perm:files-after-license': 118000, 'perm:all-licenses-before-all-files': 41000,
-                              'perm:files-reordered-among-themselves': 111000,
-                              'perm:licenses-reordered-among-themselves': 61000,
-                              'perm-input:keepends': 46000, 'perm-input:noends': 46000, 'perm-input:stringio': 46000,
-                              'perm-input:bytes': 46000}},
+    'quick': {'nontrivial': 56000,
+        'monitors': {'K.codec': 180000, 'M.codec': 65000, 'M.codec-str': 49000, 'M.doc': 5800, 'M.license': 15000,
+                     'M.license-enc': 15000, 'M.list': 11000, 'M.list-doc': 13000, 'M.list-kept': 11000,
+                     'M.list-reassigned': 11000, 'M.list-reparsed': 11000, 'M.multi': 160, 'M.multi-doc': 440,
+                     'M.multi-value': 15000, 'M.nonstrict': 2000, 'M.nonstrict-value': 41000, 'M.para': 24000,
+                     'M.perm': 4000, 'M.perm-fixpoint': 4000, 'M.perm-para': 20000, 'M.perm-value': 87000,
+                     'M.value': 110000, 'M.watch': 320000},
+        'counters': {'codec:enumerated': 16105, 'fact:decoy-files': 300, 'fact:decoy-header': 390,
+                     'fact:decoy-license': 300, 'fact:early-reads': 2900, 'fact:files-paragraphs>=2': 3300,
+                     'fact:late-after-first-dump': 210, 'fact:late-assignment': 630, 'fact:late:comment': 390,
+                     'fact:late:files': 76, 'fact:late:header': 200, 'fact:late:license': 390,
+                     'fact:license-created-before-a-files-paragraph': 1700,
+                     'fact:license-paragraphs-fully-equal': 410, 'fact:license-paragraphs-with-equal-synopsis': 810,
+                     'fact:license-paragraphs-with-equal-text': 640,
+                     'fact:license-paragraphs-with-synopsis-equal-ignoring-case': 71,
+                     'fact:license-paragraphs:2': 1100, 'fact:license-paragraphs:3': 1000,
+                     'fact:license-paragraphs:4': 110, 'fact:license-paragraphs:5': 100,
+                     'fact:license-paragraphs>=2': 2400, 'fact:own-header-object': 390,
+                     'fact:reused-license-object': 980, 'feat:common-indent': 1900, 'feat:contact-multi': 1600,
+                     'feat:contact-single': 1000, 'feat:empty-line': 5000, 'feat:files-added-after-license': 2600,
+                     'feat:files-list>120': 1800, 'feat:files-list>80': 3000, 'feat:files-multi': 4400,
+                     'feat:files-paragraph': 4900, 'feat:files-single': 2000, 'feat:header-license': 1300,
+                     'feat:indent': 5200, 'feat:license-paragraph': 4000, 'feat:non-ascii': 5500,
+                     'feat:pattern-hyphen': 4300, 'feat:pattern>80': 1500, 'feat:punct-files-at-first-entry': 1700,
+                     'feat:punct-files-at-last-entry': 1500, 'feat:punct-files-at-middle-entry': 2300,
+                     'feat:punct-files-at-only-entry': 450, 'feat:punct-files-fullwidth-separator': 200,
+                     'feat:punct-files-internal-comma': 960, 'feat:punct-files-internal-semicolon': 75,
+                     'feat:punct-files-leading-comma': 110, 'feat:punct-files-leading-other': 2400,
+                     'feat:punct-files-leading-semicolon': 57, 'feat:punct-files-only-punctuation': 2000,
+                     'feat:punct-files-quote': 210, 'feat:punct-files-trailing-backslash': 840,
+                     'feat:punct-files-trailing-colon': 97, 'feat:punct-files-trailing-comma': 230,
+                     'feat:punct-files-trailing-dot': 880, 'feat:punct-files-trailing-other': 1100,
+                     'feat:punct-files-trailing-semicolon': 130, 'feat:punct-lines-at-first-entry': 1800,
+                     'feat:punct-lines-at-last-entry': 1900, 'feat:punct-lines-at-middle-entry': 1300,
+                     'feat:punct-lines-at-only-entry': 1200, 'feat:punct-lines-fullwidth-separator': 130,
+                     'feat:punct-lines-internal-comma': 1300, 'feat:punct-lines-internal-semicolon': 230,
+                     'feat:punct-lines-leading-comma': 160, 'feat:punct-lines-leading-other': 1400,
+                     'feat:punct-lines-leading-semicolon': 50, 'feat:punct-lines-only-punctuation': 560,
+                     'feat:punct-lines-quote': 370, 'feat:punct-lines-trailing-backslash': 220,
+                     'feat:punct-lines-trailing-colon': 160, 'feat:punct-lines-trailing-comma': 350,
+                     'feat:punct-lines-trailing-dot': 360, 'feat:punct-lines-trailing-other': 2400,
+                     'feat:punct-lines-trailing-semicolon': 120, 'feat:reassigned': 4400,
+                     'feat:set-then-clear': 1200, 'feat:tab': 4300, 'feat:trailing-blank': 5200, 'input:bytes': 1400,
+                     'input:keepends': 1400, 'input:noends': 1400, 'input:stringio': 1400, 'lic:common-indent': 2000,
+                     'lic:common-indent-mixed': 590, 'lic:common-indent-space': 1000, 'lic:common-indent-tab': 360,
+                     'lic:common-indent-with-empty-line': 660, 'lists:enumerated': 2925, 'lists:files': 6100,
+                     'lists:files:at-first-entry': 3500, 'lists:files:at-last-entry': 3500,
+                     'lists:files:at-middle-entry': 3100, 'lists:files:at-only-entry': 840,
+                     'lists:files:fullwidth-separator': 780, 'lists:files:internal-comma': 1600,
+                     'lists:files:internal-semicolon': 270, 'lists:files:leading-comma': 630,
+                     'lists:files:leading-other': 2200, 'lists:files:leading-semicolon': 200,
+                     'lists:files:lone-comma': 330, 'lists:files:lone-semicolon': 330,
+                     'lists:files:only-punctuation': 2300, 'lists:files:quote': 760,
+                     'lists:files:trailing-backslash': 810, 'lists:files:trailing-colon': 570,
+                     'lists:files:trailing-comma': 1300, 'lists:files:trailing-dot': 990,
+                     'lists:files:trailing-other': 2000, 'lists:files:trailing-semicolon': 700,
+                     'lists:files_excluded': 1700, 'lists:files_included': 1700, 'lists:lines:at-first-entry': 2900,
+                     'lists:lines:at-last-entry': 2900, 'lists:lines:at-middle-entry': 1400,
+                     'lists:lines:at-only-entry': 1500, 'lists:lines:fullwidth-separator': 520,
+                     'lists:lines:internal-comma': 2400, 'lists:lines:internal-semicolon': 940,
+                     'lists:lines:leading-comma': 380, 'lists:lines:leading-other': 1500,
+                     'lists:lines:leading-semicolon': 190, 'lists:lines:lone-comma': 67,
+                     'lists:lines:lone-semicolon': 56, 'lists:lines:only-punctuation': 450, 'lists:lines:quote': 790,
+                     'lists:lines:trailing-backslash': 300, 'lists:lines:trailing-colon': 410,
+                     'lists:lines:trailing-comma': 1000, 'lists:lines:trailing-dot': 490,
+                     'lists:lines:trailing-other': 2300, 'lists:lines:trailing-semicolon': 570,
+                     'lists:upstream_contact': 1700, 'multi:doc-with-license-paragraphs>=2': 320, 'multi:docs:2': 58,
+                     'multi:docs:3': 64, 'multi:docs:4': 30, 'multi:equal-license-in-two-documents': 140,
+                     'multi:reused-license-object': 400, 'perm-input:bytes': 980, 'perm-input:keepends': 980,
+                     'perm-input:noends': 990, 'perm-input:stringio': 980, 'perm:all-licenses-before-all-files': 780,
+                     'perm:files-after-license': 2600, 'perm:files-reordered-among-themselves': 2300,
+                     'perm:license-before-first-files': 1600, 'perm:license-between-files': 1300,
+                     'perm:licenses-reordered-among-themselves': 1600}},
+    'thorough': {'nontrivial': 2400000,
+        'monitors': {'K.codec': 9800000, 'M.codec': 3500000, 'M.codec-str': 2600000, 'M.doc': 310000,
+                     'M.license': 700000, 'M.license-enc': 700000, 'M.list': 500000, 'M.list-doc': 530000,
+                     'M.list-kept': 500000, 'M.list-reassigned': 500000, 'M.list-reparsed': 500000, 'M.multi': 7900,
+                     'M.multi-doc': 22000, 'M.multi-value': 760000, 'M.nonstrict': 100000,
+                     'M.nonstrict-value': 2200000, 'M.para': 1300000, 'M.perm': 220000, 'M.perm-fixpoint': 220000,
+                     'M.perm-para': 1100000, 'M.perm-value': 4800000, 'M.value': 6100000, 'M.watch': 16000000},
+        'counters': {'codec:enumerated': 16105, 'fact:decoy-files': 15000, 'fact:decoy-header': 20000,
+                     'fact:decoy-license': 15000, 'fact:early-reads': 160000, 'fact:files-paragraphs>=2': 180000,
+                     'fact:late-after-first-dump': 11000, 'fact:late-assignment': 31000, 'fact:late:comment': 20000,
+                     'fact:late:files': 4000, 'fact:late:header': 11000, 'fact:late:license': 20000,
+                     'fact:license-created-before-a-files-paragraph': 96000,
+                     'fact:license-paragraphs-fully-equal': 21000,
+                     'fact:license-paragraphs-with-equal-synopsis': 42000,
+                     'fact:license-paragraphs-with-equal-text': 32000,
+                     'fact:license-paragraphs-with-synopsis-equal-ignoring-case': 3800,
+                     'fact:license-paragraphs:2': 63000, 'fact:license-paragraphs:3': 57000,
+                     'fact:license-paragraphs:4': 5600, 'fact:license-paragraphs:5': 5700,
+                     'fact:license-paragraphs>=2': 130000, 'fact:own-header-object': 19000,
+                     'fact:reused-license-object': 50000, 'feat:common-indent': 110000, 'feat:contact-multi': 91000,
+                     'feat:contact-single': 59000, 'feat:empty-line': 280000,
+                     'feat:files-added-after-license': 140000, 'feat:files-list>120': 100000,
+                     'feat:files-list>80': 170000, 'feat:files-multi': 240000, 'feat:files-paragraph': 270000,
+                     'feat:files-single': 110000, 'feat:header-license': 76000, 'feat:indent': 290000,
+                     'feat:license-paragraph': 220000, 'feat:non-ascii': 300000, 'feat:pattern-hyphen': 240000,
+                     'feat:pattern>80': 89000, 'feat:punct-files-at-first-entry': 96000,
+                     'feat:punct-files-at-last-entry': 86000, 'feat:punct-files-at-middle-entry': 130000,
+                     'feat:punct-files-at-only-entry': 24000, 'feat:punct-files-fullwidth-separator': 10000,
+                     'feat:punct-files-internal-comma': 54000, 'feat:punct-files-internal-semicolon': 4100,
+                     'feat:punct-files-leading-comma': 6000, 'feat:punct-files-leading-other': 130000,
+                     'feat:punct-files-leading-semicolon': 3100, 'feat:punct-files-only-punctuation': 110000,
+                     'feat:punct-files-quote': 10000, 'feat:punct-files-trailing-backslash': 48000,
+                     'feat:punct-files-trailing-colon': 5200, 'feat:punct-files-trailing-comma': 12000,
+                     'feat:punct-files-trailing-dot': 49000, 'feat:punct-files-trailing-other': 62000,
+                     'feat:punct-files-trailing-semicolon': 7000, 'feat:punct-lines-at-first-entry': 100000,
+                     'feat:punct-lines-at-last-entry': 100000, 'feat:punct-lines-at-middle-entry': 77000,
+                     'feat:punct-lines-at-only-entry': 70000, 'feat:punct-lines-fullwidth-separator': 7000,
+                     'feat:punct-lines-internal-comma': 73000, 'feat:punct-lines-internal-semicolon': 11000,
+                     'feat:punct-lines-leading-comma': 9200, 'feat:punct-lines-leading-other': 80000,
+                     'feat:punct-lines-leading-semicolon': 2700, 'feat:punct-lines-only-punctuation': 31000,
+                     'feat:punct-lines-quote': 22000, 'feat:punct-lines-trailing-backslash': 12000,
+                     'feat:punct-lines-trailing-colon': 9700, 'feat:punct-lines-trailing-comma': 19000,
+                     'feat:punct-lines-trailing-dot': 20000, 'feat:punct-lines-trailing-other': 130000,
+                     'feat:punct-lines-trailing-semicolon': 6900, 'feat:reassigned': 240000,
+                     'feat:set-then-clear': 70000, 'feat:tab': 240000, 'feat:trailing-blank': 280000,
+                     'input:bytes': 79000, 'input:keepends': 79000, 'input:noends': 79000, 'input:stringio': 80000,
+                     'lic:common-indent': 94000, 'lic:common-indent-mixed': 28000, 'lic:common-indent-space': 48000,
+                     'lic:common-indent-tab': 17000, 'lic:common-indent-with-empty-line': 32000,
+                     'lists:enumerated': 2925, 'lists:files': 250000, 'lists:files:at-first-entry': 120000,
+                     'lists:files:at-last-entry': 120000, 'lists:files:at-middle-entry': 100000,
+                     'lists:files:at-only-entry': 42000, 'lists:files:fullwidth-separator': 40000,
+                     'lists:files:internal-comma': 59000, 'lists:files:internal-semicolon': 14000,
+                     'lists:files:leading-comma': 20000, 'lists:files:leading-other': 110000,
+                     'lists:files:leading-semicolon': 10000, 'lists:files:lone-comma': 4500,
+                     'lists:files:lone-semicolon': 4500, 'lists:files:only-punctuation': 81000,
+                     'lists:files:quote': 39000, 'lists:files:trailing-backslash': 30000,
+                     'lists:files:trailing-colon': 17000, 'lists:files:trailing-comma': 46000,
+                     'lists:files:trailing-dot': 37000, 'lists:files:trailing-other': 100000,
+                     'lists:files:trailing-semicolon': 24000, 'lists:files_excluded': 83000,
+                     'lists:files_included': 83000, 'lists:lines:at-first-entry': 130000,
+                     'lists:lines:at-last-entry': 130000, 'lists:lines:at-middle-entry': 76000,
+                     'lists:lines:at-only-entry': 79000, 'lists:lines:fullwidth-separator': 26000,
+                     'lists:lines:internal-comma': 110000, 'lists:lines:internal-semicolon': 46000,
+                     'lists:lines:leading-comma': 17000, 'lists:lines:leading-other': 79000,
+                     'lists:lines:leading-semicolon': 10000, 'lists:lines:lone-comma': 1700,
+                     'lists:lines:lone-semicolon': 1000, 'lists:lines:only-punctuation': 19000,
+                     'lists:lines:quote': 40000, 'lists:lines:trailing-backslash': 13000,
+                     'lists:lines:trailing-colon': 19000, 'lists:lines:trailing-comma': 49000,
+                     'lists:lines:trailing-dot': 25000, 'lists:lines:trailing-other': 110000,
+                     'lists:lines:trailing-semicolon': 26000, 'lists:upstream_contact': 83000,
+                     'multi:doc-with-license-paragraphs>=2': 16000, 'multi:docs:2': 3200, 'multi:docs:3': 3200,
+                     'multi:docs:4': 1500, 'multi:equal-license-in-two-documents': 7200,
+                     'multi:reused-license-object': 22000, 'perm-input:bytes': 55000, 'perm-input:keepends': 55000,
+                     'perm-input:noends': 55000, 'perm-input:stringio': 55000,
+                     'perm:all-licenses-before-all-files': 45000, 'perm:files-after-license': 140000,
+                     'perm:files-reordered-among-themselves': 130000, 'perm:license-before-first-files': 91000,
+                     'perm:license-between-files': 78000, 'perm:licenses-reordered-among-themselves': 91000}},
 }
 
 # ---------------------------------------------------------------------------
